@@ -20,6 +20,8 @@ def scope(b):
 
 def run(ctx, rep):
     facts = ctx.facts()
+    import fixtures
+    fixtures.run_controls(rep, ['E6', 'E2'], lambda: ctx.reload())
     rep.rule('E6', e6_mirror.__doc__.strip().split('\n')[0])
     rep.rule('E2', e2_float.__doc__.strip().split('\n')[0])
     e6_mirror.run_snf(facts, rep)
